@@ -157,7 +157,12 @@ class Verifier:
                         texts.add(ast.unparse(n_))
                     except Exception:
                         pass
+            n_if = sum(1 for n_ in ast.walk(func.node) if isinstance(n_, ast.If))
             for h_ in contract.stmt_hints:
+                if h_[0].startswith('@if') and int(h_[0][3:]) >= n_if:
+                    res.error = 'at_stmt anchor not found in %s: %r' % (contract.qualname, h_[0])
+                    res.error_kind = 'shape'
+                    return res
                 if not h_[0].startswith('@') and h_[0] not in texts:
                     res.error = 'at_stmt anchor not found in %s: %r' % (contract.qualname, h_[0][:60])
                     res.error_kind = 'shape'
@@ -335,6 +340,9 @@ class Verifier:
         for k in cf.locals:
             pf.locals[k] = cf.locals[k]     # parameters denote their entry bindings; objects are shared
         pf.locals.update(ghosts)
+        for g in contract.ghost_init:
+            if g in fr.locals:
+                pf.locals[g] = fr.locals[g]     # final value of a ghost variable (usable in postconditions)
         pf.spec = True
         pf.old = old
         pf.target_module = func.module
